@@ -53,7 +53,7 @@ def _max_calls_on_path(b, region_entry, region, call_blocks):
 
 
 def extract(facts):
-    b = facts.body("biguint::multiplication::mac3")
+    b = _mac3(facts)
     if b is None:
         return None, "mac3 not found"
     tl, atoms = tests_of(b)
@@ -165,7 +165,7 @@ def check_cost(ctx, res, config="all"):
     if err:
         res.fail(Finding("R8-anchor-lost", "mac3", err, file="src/biguint/multiplication.rs", line=0))
         return
-    b = facts.body("biguint::multiplication::mac3")
+    b = _mac3(facts)
     thr = info["thresholds"]
     T1 = thr[0]
     kar = thr[1] if len(thr) > 1 else None
@@ -228,6 +228,35 @@ def check_cost(ctx, res, config="all"):
 # generalised extraction: the regime dispatch as a decision procedure over (|x|, |y|)
 
 
+def _pair_local(b):
+    """the local holding the (shorter, longer) pair: a 2-tuple with two definitions whose operands are each other's swap"""
+    c = getattr(b, "_pair_local", False)
+    if c is not False:
+        return c
+    out = None
+    for l, ds in b.defs().items():
+        if len(ds) == 2 and all(d[0] == "assign" and d[3]["rv"]["k"] == "aggregate" and d[3]["rv"].get("akind") == "tuple" and len(d[3]["rv"]["ops"]) == 2 for d in ds):
+            r0 = [_slice_root(b, o) for o in ds[0][3]["rv"]["ops"]]
+            r1 = [_slice_root(b, o) for o in ds[1][3]["rv"]["ops"]]
+            if r0[0] != r0[1] and r0 == [r1[1], r1[0]]:
+                out = l
+    b._pair_local = out
+    return out
+
+
+def _xy_index(b, op):
+    """0 if the operand is (a view of) x = pair.0, 1 for y = pair.1, else None"""
+    T = _pair_local(b)
+    if T is None:
+        return None
+    r = _slice_root(b, op)
+    if r[0] == "place" and r[1] == T:
+        for kind, idx in r[2]:
+            if kind == "field":
+                return idx
+    return None
+
+
 def _len_expr(b, atoms_cache, op, n, m, depth=0):
     """value of an integer operand that is an expression over len(x)=n (tuple field 0) and len(y)=m (field 1)"""
     c = op_const(op)
@@ -244,12 +273,10 @@ def _len_expr(b, atoms_cache, op, n, m, depth=0):
     if d[0] == "call":
         t = d[2]
         if callee_name(t) == "len" and t["args"]:
-            a = atoms_cache.of_operand(t["args"][0])
-            f0 = any(x[0] == "param" and x[2][:1] == ("0",) for x in a)
-            f1 = any(x[0] == "param" and x[2][:1] == ("1",) for x in a)
-            if f0 and not f1:
+            k_ = _xy_index(b, t["args"][0])
+            if k_ == 0:
                 return n
-            if f1 and not f0:
+            if k_ == 1:
                 return m
         return None
     if d[0] == "assign":
@@ -305,8 +332,7 @@ def regime_at(facts, b, n, m, rec_calls, atoms_cache, tl):
     for x in seen:
         t = b.blocks[x]["term"]
         if t["k"] == "call" and callee_name(t) == "split_at" and t["args"]:
-            a = atoms_cache.of_operand(t["args"][0])
-            if any(z[0] == "param" and z[2][:1] == ("0",) for z in a):
+            if _xy_index(b, t["args"][0]) == 0:
                 x_split = True
     fan = _max_calls_in(b, seen, calls)
     return {"calls": fan, "divs": divs, "x_split": x_split, "blocks": seen}
@@ -333,10 +359,23 @@ def _max_calls_in(b, region, call_blocks):
     return go(0)
 
 
+def _mac3(facts):
+    """mac3 with its small private helpers inlined (an extracted prologue, an extracted schoolbook loop or partial-product helper
+    are part of the dispatch the recurrence is read from)"""
+    b = facts.body("biguint::multiplication::mac3")
+    if b is None:
+        return None
+    c = getattr(facts, "_mac3_inl", None)
+    if c is None:
+        c = core.inline_private(facts, b, keep=("mac_digit", "mac3", "mul3", "sub_sign", "bigint_from_slice", "__add2", "add2", "sub2", "normalize", "normalized"))
+        facts._mac3_inl = c
+    return c
+
+
 class Recurrence:
     def __init__(self, facts):
         self.facts = facts
-        self.b = facts.body("biguint::multiplication::mac3")
+        self.b = _mac3(facts)
         self.tl, self.atoms = tests_of(self.b)
         R = _reaches(facts, self.b.path)
         self.rec_calls = {i for i, t in self.b.calls() if i in self.b.live_blocks() and callee(t) in R}
@@ -379,13 +418,22 @@ class Recurrence:
 
 
 def check_cost_general(ctx, res, config="all"):
+    try:
+        return _check_cost_general(ctx, res, config)
+    except RecursionError:
+        facts = ctx.facts(config)
+        res.fail(Finding("R8-recurrence-diverges", "mac3", "the work recurrence read from mac3's dispatch does not terminate: for some operand lengths a recursive product is issued on operands that are not smaller (the size tests and the splits disagree)", _mac3(facts)))
+        res.clause("R8: work recurrence of mac3 (diverged)")
+
+
+def _check_cost_general(ctx, res, config="all"):
     """the same inequalities, on a recurrence whose regime for each (n, m) is obtained by deciding mac3's own length tests"""
     facts = ctx.facts(config)
-    b = facts.body("biguint::multiplication::mac3")
+    b = _mac3(facts)
     if b is None:
         res.fail(Finding("R8-anchor-lost", "mac3", "mac3 not found", file="src/biguint/multiplication.rs", line=0))
         return
-    sys.setrecursionlimit(100000)
+    sys.setrecursionlimit(20000)
     rc = Recurrence(facts)
     if len(rc.rec_calls) < 3:
         res.fail(Finding("R8-anchor-lost", "recursive-calls", "only %d recursive product sites found in mac3" % len(rc.rec_calls), b))
@@ -433,23 +481,73 @@ def check_cost_general(ctx, res, config="all"):
     res.clause("R8 (general): for every (|x|,|y|) the regime is obtained by deciding mac3's own length comparisons; the resulting recurrence satisfies the same inequalities; mac_digit is called from mac3 only")
 
 
+def _slice_root(b, op, depth=0):
+    """identity of the slice value an operand denotes: follows single-definition moves / reborrows back to a parameter, a call
+    result or a projected place; returns a hashable id"""
+    for _ in range(20):
+        pl = core.op_place(op)
+        if pl is None:
+            return ("const",)
+        fields = tuple((e["k"], e.get("idx")) for e in pl["proj"] if e["k"] in ("field", "downcast"))
+        if fields:
+            return ("place", pl["local"], fields)
+        l = pl["local"]
+        if b.is_param(l):
+            return ("param", l)
+        ds = b.defs().get(l, [])
+        if len(ds) != 1 or b.partial_defs().get(l):
+            return ("local", l)
+        d = ds[0]
+        if d[0] == "assign" and d[3]["rv"]["k"] == "use":
+            op = d[3]["rv"]["op"]
+            continue
+        if d[0] == "assign" and d[3]["rv"]["k"] in ("ref", "copyforderef"):
+            op = {"k": "copy", "place": d[3]["rv"]["place"]}
+            # strip the deref of a reborrow
+            if [e["k"] for e in op["place"]["proj"]] == ["deref"]:
+                op = {"k": "copy", "place": {"local": op["place"]["local"], "proj": []}}
+            continue
+        return ("local", l)
+    return ("local", -1)
+
+
+def _len_arg_root(b, op):
+    """for an operand holding `len(&S)`: the identity of S"""
+    l = op_local(op)
+    for _ in range(6):
+        if l is None:
+            return None
+        ds = b.defs().get(l, [])
+        if len(ds) != 1:
+            return None
+        d = ds[0]
+        if d[0] == "call" and callee_name(d[2]) == "len" and d[2]["args"]:
+            return _slice_root(b, d[2]["args"][0])
+        if d[0] == "assign" and d[3]["rv"]["k"] == "use":
+            l = op_local(d[3]["rv"]["op"])
+            continue
+        return None
+    return None
+
+
 def check_shorter_first(ctx, res, config="all"):
     """mac3's regimes assume |x| <= |y| (Karatsuba splits y at |x|/2, Toom-3 sizes the thirds from y): x and y must be chosen by
     comparing the lengths of exactly the slices the regimes then see - no narrowing of x or y after the choice"""
     facts = ctx.facts(config)
-    b = facts.body("biguint::multiplication::mac3")
+    b = _mac3(facts)
     if b is None:
         res.fail(Finding("R8-anchor-lost", "mac3", "mac3 not found", file="src/biguint/multiplication.rs", line=0))
         return
     tl, atoms = tests_of(b)
-    # the ordering test: Lt/Le/Gt/Ge between two len() results of *different* slices
+    # the ordering test: Lt/Le/Gt/Ge between the len() of two *different* slices, whose two outcomes each build a pair
     sel = None
+    ra = rb = None
     for t in tl:
         c = t.cond
-        if c is not None and c.kind == "cmp" and c.op in ("Lt", "Le", "Gt", "Ge") and calls_of(c.a) >= {"len"} and calls_of(c.b) >= {"len"} and not consts_of(c.a) - {0} and not consts_of(c.b) - {0}:
-            pa, pb = params_of(c.a), params_of(c.b)
-            if pa and pb and pa != pb:
-                sel = t
+        if c is not None and c.kind == "cmp" and c.op in ("Lt", "Le", "Gt", "Ge"):
+            xa, xb = _len_arg_root(b, c.ra), _len_arg_root(b, c.rb)
+            if xa is not None and xb is not None and xa != xb:
+                sel, ra, rb = t, xa, xb
                 break
     if sel is None:
         res.fail(Finding("R8-shorter-first", b.path, "no comparison of the two operand lengths that selects (shorter, longer)", b))
@@ -462,17 +560,14 @@ def check_shorter_first(ctx, res, config="all"):
     tl_local = tups[0][2]["place"]["local"]
     errs = []
     # shorter operand first on both edges
-    fl = core.Flow(b)
     c = sel.cond
-    la = fl.roots_of_operand(c.ra)
     for (i, si, s) in tups:
         on_true = i == sel.t
-        first = fl.roots_of_operand(s["rv"]["ops"][0])
-        firstp = {r[1] for r in first if r[0] == "param"}
-        pa, pb = params_of(c.a), params_of(c.b)
+        first = _slice_root(b, s["rv"]["ops"][0])
+        second = _slice_root(b, s["rv"]["ops"][1])
         a_shorter = (c.op in ("Lt", "Le")) == on_true  # on this edge, is operand `a` of the comparison the shorter one?
-        want = pa if a_shorter else pb
-        if firstp != want:
+        want = (ra, rb) if a_shorter else (rb, ra)
+        if (first, second) != want:
             errs.append("on the %s edge of the length comparison the longer operand is put first" % ("true" if on_true else "false"))
     # x, y are not narrowed afterwards: the locals read from the pair have no other definition, and the regime tests read them
     xs = [s["place"]["local"] for i, si, s in b.stmts() if s["k"] == "assign" and s["rv"]["k"] == "use" and core.op_place(s["rv"]["op"]) and core.op_place(s["rv"]["op"])["local"] == tl_local and core.op_place(s["rv"]["op"])["proj"]]
@@ -480,12 +575,13 @@ def check_shorter_first(ctx, res, config="all"):
         ds = b.defs().get(x, [])
         if len(ds) != 1:
             errs.append("operand slice `%s` is re-assigned after the (shorter, longer) choice: the regimes may see |x| > |y|" % (b.locals[x].get("name") or "_%d" % x))
-    # the slices compared must be the final ones: no definition of the compared parameters' slices after the comparison
-    for p in sorted(params_of(c.a) | params_of(c.b)):
-        for d in b.defs().get(p, []):
-            blk = d[1]
-            if blk in b.reachable(sel.bb) and blk != sel.bb:
-                errs.append("operand %d is narrowed after the length comparison" % p)
+    # the slices compared must be the final ones: the compared variables are not re-assigned after the comparison
+    for r_ in (ra, rb):
+        if r_[0] in ("param", "local"):
+            for d in b.defs().get(r_[1], []):
+                blk = d[1]
+                if blk in b.reachable(sel.bb) and blk != sel.bb:
+                    errs.append("operand %s is narrowed after the length comparison" % (b.locals[r_[1]].get("name") or r_[1]))
     if errs:
         res.fail(Finding("R8-shorter-first", b.path, "; ".join(sorted(set(errs))), b))
     else:
